@@ -194,6 +194,9 @@ def run(res, programs, tier):
         _r15_4(res, P, cfgname)
         _r15_4b(res, P, cfgname)
         if "dashu_int" in P.units:
+            from . import c01
+            c01.r01_5(res, P, cfgname, "R01.5")     # shared: the ownership forms of IBig - IBig differ exactly by which arm swaps
+        if "dashu_int" in P.units:
             from . import c17b
             res.rule("R17.7", "(shared with C17) Repr::clone_from: the final sign fix-up reads the current sign of self")
             res.rule("R17.8", "(shared with C17) Repr::clone_from frees or reuses the destination buffer on every path")
